@@ -1,1 +1,1007 @@
-//! (reference model; owner fills this in)
+//! C12 reference model - building a paragraph (text -> horizontal list -> lines).
+//!
+//! Everything here is our own transcription of *TeX: The Program* (section numbers as in the
+//! 2021 edition); nothing depends on /repo.
+//!
+//! * §102/§103  `round_decimals`, `print_scaled`   (calibration against printed goldens, witnesses)
+//! * §107       `xn_over_d`
+//! * §564-§575  just enough of the TFM reader to get a font's widths and `\fontdimen`s
+//!              independently of the repo's `tfm` crate (`TfmLite`)
+//! * §1034      space factor; §1041-§1044 inter-word glue (`interword_glue`)
+//! * §148       discardable / precedes_break predicates, legal breakpoints (§866-§869)
+//! * §816       finishing the list before line breaking
+//! * §877-§890  `post_line_break`: what each line box must contain (`expected_lines`), which
+//!              penalty follows it (`interline_penalty`), its width and indent (`line_geometry`)
+//! * a second, differently written formulation of "nothing lost / duplicated / reordered":
+//!   `check_conservation` consumes the list with a cursor while reading the produced lines.
+//!
+//! Two *deviation models* (see BUILDING.md, known-finding policy) are selectable:
+//! `Prune::None` (the code under test does not execute §879 at all) and
+//! `SpaceRule::SpaceSkipUnscaled` (a non-zero `\spaceskip` is used as is when the space factor is
+//! not 1000, i.e. §1044 is skipped for it).
+
+// ------------------------------------------------------------------------------------------
+// arithmetic
+
+pub const UNITY: i32 = 1 << 16;
+
+/// TeX §107. Returns `None` where TeX would set `arith_error`.
+pub fn xn_over_d(x: i32, n: i32, d: i32) -> Option<i32> {
+    debug_assert!((0..=0o200000).contains(&n) && d > 0 && d <= 0o200000);
+    let positive = x >= 0;
+    let x: i64 = (x as i64).abs();
+    let n = n as i64;
+    let d = d as i64;
+    let t = (x % 0o100000) * n;
+    let mut u = (x / 0o100000) * n + (t / 0o100000);
+    let v = (u % d) * 0o100000 + (t % 0o100000);
+    if u / d >= 0o100000 {
+        return None;
+    }
+    u = 0o100000 * (u / d) + (v / d);
+    let u = u as i32;
+    Some(if positive { u } else { -u })
+}
+
+/// TeX §102: the scaled value of `.d0 d1 d2 ...`.
+pub fn round_decimals(digits: &[u8]) -> i32 {
+    let mut a: i32 = 0;
+    for d in digits.iter().rev() {
+        a = (a + (*d as i32) * 2 * UNITY) / 10;
+    }
+    (a + 1) / 2
+}
+
+/// Parses what `print_scaled` prints ("-12.5", "3.33333"); `None` if it is not of that form.
+pub fn parse_printed_scaled(s: &str) -> Option<i32> {
+    let (neg, s) = match s.strip_prefix('-') {
+        Some(r) => (true, r),
+        None => (false, s),
+    };
+    let (int, frac) = match s.split_once('.') {
+        Some((a, b)) => (a, b),
+        None => (s, ""),
+    };
+    if int.is_empty() || !int.bytes().all(|b| b.is_ascii_digit()) || !frac.bytes().all(|b| b.is_ascii_digit()) {
+        return None;
+    }
+    let i: i32 = int.parse().ok()?;
+    if i >= 16384 {
+        return None;
+    }
+    let digits: Vec<u8> = frac.bytes().map(|b| b - b'0').collect();
+    let v = i * UNITY + round_decimals(&digits);
+    Some(if neg { -v } else { v })
+}
+
+/// TeX §103.
+pub fn print_scaled(s: i32) -> String {
+    let mut out = String::new();
+    let mut s = s as i64;
+    if s < 0 {
+        out.push('-');
+        s = -s;
+    }
+    out.push_str(&(s / UNITY as i64).to_string());
+    out.push('.');
+    s = 10 * (s % UNITY as i64) + 5;
+    let mut delta: i64 = 10;
+    loop {
+        if delta > UNITY as i64 {
+            s = s + 0o100000 - 50000;
+        }
+        out.push((b'0' + (s / UNITY as i64) as u8) as char);
+        s = 10 * (s % UNITY as i64);
+        delta *= 10;
+        if s <= delta {
+            break;
+        }
+    }
+    out
+}
+
+// ------------------------------------------------------------------------------------------
+// glue specifications and nodes
+
+/// TeX §150. Orders: 0 normal, 1 fil, 2 fill, 3 filll.
+#[derive(Clone, Copy, Debug, PartialEq, Eq, Hash, Default)]
+pub struct GlueSpec {
+    pub width: i32,
+    pub stretch: i32,
+    pub stretch_order: u8,
+    pub shrink: i32,
+    pub shrink_order: u8,
+}
+
+impl GlueSpec {
+    pub const ZERO: GlueSpec = GlueSpec {
+        width: 0,
+        stretch: 0,
+        stretch_order: 0,
+        shrink: 0,
+        shrink_order: 0,
+    };
+    /// TeX compares glue parameters with the pointer `zero_glue`; §1229 (`trap_zero_glue`) makes a
+    /// parameter that pointer exactly when width, stretch and shrink are all 0 (orders are not
+    /// looked at).
+    pub fn is_zero_glue(&self) -> bool {
+        self.width == 0 && self.stretch == 0 && self.shrink == 0
+    }
+    pub fn render(&self) -> String {
+        let ord = |o: u8| ["pt", "fil", "fill", "filll"][o.min(3) as usize];
+        let mut s = format!("{}pt", print_scaled(self.width));
+        if self.stretch != 0 {
+            s += &format!(" plus {}{}", print_scaled(self.stretch), ord(self.stretch_order));
+        }
+        if self.shrink != 0 {
+            s += &format!(" minus {}{}", print_scaled(self.shrink), ord(self.shrink_order));
+        }
+        s
+    }
+}
+
+#[derive(Clone, Copy, Debug, PartialEq, Eq, Hash)]
+pub enum KernKind {
+    Normal,
+    Explicit,
+    Accent,
+    Math,
+}
+
+/// A node of a horizontal list, in a form that can be compared exactly. The monitor converts
+/// the repo's `ds::Horizontal` into this (losslessly for every node kind inside the property's
+/// quantifier; anything else becomes `Other`).
+#[derive(Clone, Debug, PartialEq, Eq, Hash)]
+pub enum MNode {
+    Char { c: u32, font: u32 },
+    Lig { c: u32, font: u32, orig: String, left_boundary: bool, right_boundary: bool },
+    /// hbox or vbox: outer dimensions and a tag identifying the content
+    Box { width: i32, height: i32, depth: i32, shift: i32, tag: u64 },
+    Rule { width: i32, height: i32, depth: i32 },
+    Glue { spec: GlueSpec, kind: u8 },
+    Kern { width: i32, kind: KernKind },
+    Penalty(i32),
+    Disc { pre: Vec<MNode>, post: Vec<MNode>, replace: u32 },
+    Other(String),
+}
+
+impl MNode {
+    pub fn glue(spec: GlueSpec) -> MNode {
+        MNode::Glue { spec, kind: 0 }
+    }
+    pub fn empty_disc() -> MNode {
+        MNode::Disc { pre: vec![], post: vec![], replace: 0 }
+    }
+    /// §148 `non_discardable(#) == (type(#) < math_node)`; char nodes behave the same way at the
+    /// only call site (§879).
+    pub fn non_discardable(&self) -> bool {
+        !matches!(self, MNode::Glue { .. } | MNode::Kern { .. } | MNode::Penalty(_) | MNode::Other(_))
+    }
+    /// What §879 deletes at the beginning of a line: glue, penalties, math nodes and *explicit*
+    /// kerns ("if type(q)=kern_node then if subtype(q)<>explicit then goto done1").
+    pub fn pruned_after_break(&self) -> bool {
+        match self {
+            MNode::Glue { .. } | MNode::Penalty(_) => true,
+            MNode::Kern { kind, .. } => *kind == KernKind::Explicit,
+            _ => false,
+        }
+    }
+    /// The text a node stands for: characters, and for ligatures the characters they replaced.
+    pub fn spelled(&self, out: &mut String) {
+        match self {
+            MNode::Char { c, .. } => out.push(char::from_u32(*c).unwrap_or('\u{fffd}')),
+            MNode::Lig { orig, .. } => out.push_str(orig),
+            _ => {}
+        }
+    }
+    pub fn render(&self) -> String {
+        match self {
+            MNode::Char { c, font } => {
+                let ch = char::from_u32(*c).unwrap_or('\u{fffd}');
+                if *font == 0 {
+                    format!("{ch}")
+                } else {
+                    format!("{ch}@{font}")
+                }
+            }
+            MNode::Lig { c, orig, left_boundary, right_boundary, .. } => format!(
+                "lig({}<-{}{orig}{})",
+                c,
+                if *left_boundary { "|" } else { "" },
+                if *right_boundary { "|" } else { "" }
+            ),
+            MNode::Box { width, tag, .. } => format!("box({}pt#{:x})", print_scaled(*width), tag & 0xffff),
+            MNode::Rule { width, .. } => format!("rule({}pt)", print_scaled(*width)),
+            MNode::Glue { spec, kind } => {
+                if *kind == 0 {
+                    format!("glue({})", spec.render())
+                } else {
+                    format!("glue[{kind}]({})", spec.render())
+                }
+            }
+            MNode::Kern { width, kind } => format!(
+                "kern{}({}pt)",
+                match kind {
+                    KernKind::Normal => "",
+                    KernKind::Explicit => "*",
+                    KernKind::Accent => "^",
+                    KernKind::Math => "$",
+                },
+                print_scaled(*width)
+            ),
+            MNode::Penalty(p) => format!("pen({p})"),
+            MNode::Disc { pre, post, replace } => {
+                format!("disc{{{}|{}|{}}}", render_list(pre), render_list(post), replace)
+            }
+            MNode::Other(s) => format!("other<{s}>"),
+        }
+    }
+}
+
+pub fn render_list(list: &[MNode]) -> String {
+    let mut s = String::new();
+    for (i, n) in list.iter().enumerate() {
+        if i > 0 {
+            s.push(' ');
+        }
+        s += &n.render();
+    }
+    s
+}
+
+// ------------------------------------------------------------------------------------------
+// TFM, just enough (§539-§575): widths and parameters at the design size
+
+#[derive(Clone, Debug)]
+pub struct TfmLite {
+    pub bc: usize,
+    pub ec: usize,
+    pub design_size: i32,
+    /// scaled width per character code 0..=255; `None` when the character does not exist
+    pub widths: Vec<Option<i32>>,
+    /// `\fontdimen` 1.. (index 0 = param 1 = slant, unscaled; the others scaled by the design size)
+    pub params: Vec<i32>,
+}
+
+#[derive(Clone, Copy, Debug, PartialEq, Eq)]
+pub struct FontSpace {
+    pub space: i32,
+    pub stretch: i32,
+    pub shrink: i32,
+    pub extra: i32,
+}
+
+impl TfmLite {
+    pub fn parse(b: &[u8]) -> Option<TfmLite> {
+        let half = |i: usize| -> Option<usize> { Some(((*b.get(2 * i)? as usize) << 8) | *b.get(2 * i + 1)? as usize) };
+        let (lf, lh, bc, ec, nw, nh, nd, ni, nl, nk, ne, np) = (
+            half(0)?, half(1)?, half(2)?, half(3)?, half(4)?, half(5)?, half(6)?, half(7)?, half(8)?, half(9)?, half(10)?, half(11)?,
+        );
+        if ec + 1 < bc || ec > 255 || lh < 2 {
+            return None;
+        }
+        let nc = ec + 1 - bc;
+        if lf != 6 + lh + nc + nw + nh + nd + ni + nl + nk + ne + np || b.len() < 4 * lf {
+            return None;
+        }
+        let word = |i: usize| -> [u8; 4] { [b[4 * i], b[4 * i + 1], b[4 * i + 2], b[4 * i + 3]] };
+        // §568: the design size as a scaled number
+        let ds = word(6 + 1);
+        let mut z: i64 = ((ds[0] as i64) << 8) | ds[1] as i64;
+        z = z * 0o400 + ds[2] as i64;
+        z = z * 0o20 + (ds[3] as i64) / 0o20;
+        let design_size = z as i32;
+        // §572
+        let mut alpha: i64 = 16;
+        while z >= 0o40000000 {
+            z /= 2;
+            alpha += alpha;
+        }
+        let beta = 256 / alpha;
+        let alpha = alpha * z;
+        // §571 store_scaled
+        let store_scaled = |w: [u8; 4]| -> Option<i32> {
+            let (a, bb, c, d) = (w[0] as i64, w[1] as i64, w[2] as i64, w[3] as i64);
+            let sw = (((((d * z) / 0o400) + (c * z)) / 0o400) + (bb * z)) / beta;
+            match a {
+                0 => Some(sw as i32),
+                255 => Some((sw - alpha) as i32),
+                _ => None,
+            }
+        };
+        let char_base = 6 + lh;
+        let width_base = char_base + nc;
+        let param_base = width_base + nw + nh + nd + ni + nl + nk + ne;
+        let mut widths = vec![None; 256];
+        for c in bc..=ec {
+            if nc == 0 {
+                break;
+            }
+            let ci = word(char_base + (c - bc));
+            let wi = ci[0] as usize;
+            if wi == 0 || wi >= nw {
+                continue; // §554: width index 0 = the character does not exist
+            }
+            widths[c] = Some(store_scaled(word(width_base + wi))?);
+        }
+        let mut params = vec![];
+        for k in 0..np {
+            let w = word(param_base + k);
+            if k == 0 {
+                // §575: the slant is not scaled by the font size
+                let sw = i32::from_be_bytes(w);
+                params.push(sw >> 4);
+            } else {
+                params.push(store_scaled(w)?);
+            }
+        }
+        Some(TfmLite { bc, ec, design_size, widths, params })
+    }
+
+    /// §558: space, space_stretch, space_shrink, extra_space are parameters 2, 3, 4 and 7.
+    pub fn font_space(&self) -> FontSpace {
+        let p = |k: usize| self.params.get(k - 1).copied().unwrap_or(0);
+        FontSpace { space: p(2), stretch: p(3), shrink: p(4), extra: p(7) }
+    }
+}
+
+// ------------------------------------------------------------------------------------------
+// §1034 space factor, §1041-§1044 inter-word glue
+
+/// plain.tex: `\sfcode` of `)`, `'`, `]` is 0; `\nonfrenchspacing`; INITEX gives uppercase 999.
+pub fn plain_sf_codes() -> [i32; 256] {
+    let mut a = [1000i32; 256];
+    for (c, v) in [(b')', 0), (b'\'', 0), (b']', 0), (b'.', 3000), (b'?', 3000), (b'!', 3000), (b':', 2000), (b';', 1500), (b',', 1250)] {
+        a[c as usize] = v;
+    }
+    for c in b'A'..=b'Z' {
+        a[c as usize] = 999;
+    }
+    a
+}
+
+/// §1034 `adjust_space_factor`.
+pub fn adjust_space_factor(space_factor: i32, sf_code: i32) -> i32 {
+    let main_s = sf_code;
+    if main_s == 1000 {
+        1000
+    } else if main_s < 1000 {
+        if main_s > 0 {
+            main_s
+        } else {
+            space_factor
+        }
+    } else if space_factor < 1000 {
+        1000
+    } else {
+        main_s
+    }
+}
+
+#[derive(Clone, Copy, Debug, PartialEq, Eq)]
+pub enum SpaceRule {
+    /// TeX
+    Tex,
+    /// deviation model: a non-zero `\spaceskip` is never modified by §1044
+    SpaceSkipUnscaled,
+}
+
+/// The glue appended for a space token in horizontal mode. `None` = arithmetic overflow inside
+/// `xn_over_d` (TeX sets `arith_error` and carries on with garbage: outside the quantifier).
+pub fn interword_glue(
+    space_factor: i32,
+    font: &FontSpace,
+    space_skip: &GlueSpec,
+    xspace_skip: &GlueSpec,
+    rule: SpaceRule,
+) -> Option<GlueSpec> {
+    // §1042: the font's glue, orders normal
+    let font_glue = GlueSpec { width: font.space, stretch: font.stretch, stretch_order: 0, shrink: font.shrink, shrink_order: 0 };
+    if space_factor == 1000 {
+        // §1041
+        return Some(if space_skip.is_zero_glue() { font_glue } else { *space_skip });
+    }
+    // §1043 app_space
+    if space_factor >= 2000 && !xspace_skip.is_zero_glue() {
+        return Some(*xspace_skip);
+    }
+    let mut main_p = if !space_skip.is_zero_glue() {
+        if rule == SpaceRule::SpaceSkipUnscaled {
+            return Some(*space_skip);
+        }
+        *space_skip
+    } else {
+        font_glue
+    };
+    // §1044
+    if space_factor >= 2000 {
+        main_p.width = main_p.width.checked_add(font.extra)?;
+    }
+    main_p.stretch = xn_over_d(main_p.stretch, space_factor, 1000)?;
+    main_p.shrink = xn_over_d(main_p.shrink, 1000, space_factor)?;
+    Some(main_p)
+}
+
+#[derive(Clone, Debug)]
+pub struct ExpectedWord {
+    pub word: String,
+    /// (space factor at the space, glue by TeX, glue by the `SpaceSkipUnscaled` deviation model);
+    /// `None` after the last word.
+    pub space_after: Option<(i32, GlueSpec, GlueSpec)>,
+}
+
+/// What a text must become: its words (maximal runs of non-blank characters) separated by one
+/// glue node per blank run, the glue chosen by the space factor in force at that point. The
+/// space factor starts at 1000 (§1091, new paragraph) and is adjusted once per character read
+/// (§1034, §1038: also for characters that end up inside a ligature).
+/// Returns `None` if some glue computation overflows.
+pub fn expected_words(
+    text: &str,
+    sf_codes: &[i32; 256],
+    font: &FontSpace,
+    space_skip: &GlueSpec,
+    xspace_skip: &GlueSpec,
+) -> Option<Vec<ExpectedWord>> {
+    let is_blank = |c: char| matches!(c, ' ' | '\t' | '\n' | '\r' | '\u{c}');
+    let words: Vec<&str> = text.split(is_blank).filter(|w| !w.is_empty()).collect();
+    let mut sf = 1000;
+    let mut out = vec![];
+    for (i, w) in words.iter().enumerate() {
+        for c in w.chars() {
+            let code = if (c as u32) < 256 { sf_codes[c as usize] } else { 1000 };
+            sf = adjust_space_factor(sf, code);
+        }
+        let space_after = if i + 1 < words.len() {
+            let t = interword_glue(sf, font, space_skip, xspace_skip, SpaceRule::Tex)?;
+            let d = interword_glue(sf, font, space_skip, xspace_skip, SpaceRule::SpaceSkipUnscaled)?;
+            Some((sf, t, d))
+        } else {
+            None
+        };
+        out.push(ExpectedWord { word: w.to_string(), space_after });
+    }
+    Some(out)
+}
+
+/// Checks that the nodes of one word segment (no glue inside) spell `word`, that an empty
+/// discretionary follows exactly the nodes whose text ends with the hyphen character (§1039:
+/// `if character(tail)=hyphen_char then ins_disc:=true`), that kerns are font kerns and that all
+/// characters come from font `font`. Returns a description of the first problem.
+pub fn check_word_segment(seg: &[MNode], word: &str, font: u32) -> Result<(), String> {
+    let mut spelled = String::new();
+    let mut expect_disc = false;
+    for (i, n) in seg.iter().enumerate() {
+        match n {
+            MNode::Char { font: f, .. } | MNode::Lig { font: f, .. } => {
+                if expect_disc {
+                    return Err(format!("no discretionary after the hyphen before node {i}"));
+                }
+                if *f != font {
+                    return Err(format!("node {i} is in font {f}, current font is {font}"));
+                }
+                let before = spelled.len();
+                n.spelled(&mut spelled);
+                expect_disc = spelled.len() > before && spelled.ends_with('-');
+            }
+            MNode::Disc { pre, post, replace } => {
+                if !expect_disc {
+                    return Err(format!("discretionary at node {i} does not follow a hyphen"));
+                }
+                if !pre.is_empty() || !post.is_empty() || *replace != 0 {
+                    return Err(format!("discretionary at node {i} is not empty"));
+                }
+                expect_disc = false;
+            }
+            MNode::Kern { kind, .. } => {
+                if expect_disc {
+                    return Err(format!("no discretionary after the hyphen before node {i}"));
+                }
+                if *kind != KernKind::Normal {
+                    return Err(format!("kern at node {i} is not a font kern"));
+                }
+            }
+            other => return Err(format!("unexpected node {} inside a word", other.render())),
+        }
+    }
+    if expect_disc {
+        return Err("no discretionary after the final hyphen".into());
+    }
+    if spelled != word {
+        return Err(format!("nodes spell {spelled:?}, the word is {word:?}"));
+    }
+    Ok(())
+}
+
+// ------------------------------------------------------------------------------------------
+// breakpoints
+
+/// TeXbook p.96 / §866-§869 restricted to lists without math: is position `i` of `list` a place
+/// where a line may end? `i == list.len()` is the final break (§873).
+pub fn is_legal_breakpoint(list: &[MNode], i: usize) -> bool {
+    if i == list.len() {
+        return true;
+    }
+    match &list[i] {
+        // §868
+        MNode::Glue { .. } => {
+            i > 0
+                && match &list[i - 1] {
+                    MNode::Kern { kind, .. } => *kind != KernKind::Explicit,
+                    p => p.non_discardable(),
+                }
+        }
+        // §866 kern_break
+        MNode::Kern { kind, .. } => *kind == KernKind::Explicit && matches!(list.get(i + 1), Some(MNode::Glue { .. })),
+        MNode::Penalty(p) => *p < 10000,
+        MNode::Disc { .. } => true,
+        _ => false,
+    }
+}
+
+// ------------------------------------------------------------------------------------------
+// §816
+
+/// §816: a final glue node is removed, then `\penalty10000` and `\parfillskip` are appended.
+pub fn finish_list_816(before: &[MNode], par_fill_skip: GlueSpec) -> Vec<MNode> {
+    let mut l = before.to_vec();
+    if matches!(l.last(), Some(MNode::Glue { .. })) {
+        l.pop();
+    }
+    l.push(MNode::Penalty(10000));
+    l.push(MNode::glue(par_fill_skip));
+    l
+}
+
+// ------------------------------------------------------------------------------------------
+// §877-§890 post_line_break
+
+#[derive(Clone, Copy, Debug, PartialEq, Eq)]
+pub enum Prune {
+    /// TeX §879
+    Tex,
+    /// deviation model: §879 is not executed; only the break node itself is treated (§881)
+    None,
+}
+
+#[derive(Clone, Debug, PartialEq, Eq)]
+pub struct ExpectedLine {
+    pub items: Vec<MNode>,
+    /// §881 `disc_break`
+    pub disc_break: bool,
+    /// how many list nodes §879 deleted after this line's break
+    pub pruned: usize,
+}
+
+/// The content of every line box, from the list that was broken (after §816 and hyphenation) and
+/// the chosen breakpoints (`breaks` strictly increasing, last = `list.len()`).
+pub fn expected_lines(
+    list: &[MNode],
+    breaks: &[usize],
+    left_skip: GlueSpec,
+    right_skip: GlueSpec,
+    prune: Prune,
+) -> Result<Vec<ExpectedLine>, String> {
+    let len = list.len();
+    if breaks.last() != Some(&len) {
+        return Err(format!("the last breakpoint must be the end of the list ({len}), breaks are {breaks:?}"));
+    }
+    let mut out = vec![];
+    let mut start = 0usize; // first node of the current line in `list`
+    let mut transplanted: Vec<MNode> = vec![]; // post-break list of the previous line's discretionary (§884)
+    for (k, &b) in breaks.iter().enumerate() {
+        if b < start || b > len {
+            return Err(format!("breakpoint {b} of line {k} lies before the start {start} of its line"));
+        }
+        let mut items = vec![];
+        // §887: \leftskip only if it is not zero_glue
+        if !left_skip.is_zero_glue() {
+            items.push(MNode::glue(left_skip));
+        }
+        items.append(&mut transplanted);
+        items.extend_from_slice(&list[start..b]);
+        let mut disc_break = false;
+        let mut post_disc_break = false;
+        let mut next = b + 1;
+        if b < len {
+            // §881
+            match &list[b] {
+                MNode::Glue { .. } => {
+                    // the glue node *becomes* the \rightskip node
+                }
+                MNode::Disc { pre, post, replace } => {
+                    // §882: the (now empty) discretionary stays, the replaced nodes are destroyed
+                    // (§883), the post-break list is re-attached before what follows (§884), the
+                    // pre-break list right after the discretionary.
+                    items.push(MNode::empty_disc());
+                    items.extend(pre.iter().cloned());
+                    transplanted = post.clone();
+                    post_disc_break = !post.is_empty();
+                    disc_break = true;
+                    next = b + 1 + *replace as usize;
+                    if next > len {
+                        return Err(format!("discretionary at {b} replaces more nodes than follow it"));
+                    }
+                }
+                MNode::Kern { kind, .. } => items.push(MNode::Kern { width: 0, kind: *kind }),
+                p @ MNode::Penalty(_) => items.push(p.clone()),
+                other => return Err(format!("node {} at {b} cannot be a breakpoint", other.render())),
+            }
+        } else {
+            next = len;
+        }
+        // §886: \rightskip always
+        items.push(MNode::glue(right_skip));
+        // §879, executed "if cur_p<>null then if not post_disc_break"
+        let mut pruned = 0;
+        if k + 1 < breaks.len() && !post_disc_break && prune == Prune::Tex {
+            let next_break = breaks[k + 1];
+            while next < len && next != next_break && list[next].pruned_after_break() {
+                next += 1;
+                pruned += 1;
+            }
+        }
+        start = next;
+        out.push(ExpectedLine { items, disc_break, pruned });
+    }
+    Ok(out)
+}
+
+/// §890: the penalty node after line `line` (0-based) of `n_lines`, `None` if there is none.
+pub fn interline_penalty(
+    line: usize,
+    n_lines: usize,
+    disc_break: bool,
+    inter_line_penalty: i32,
+    club_penalty: i32,
+    widow_penalty: i32,
+    broken_penalty: i32,
+) -> Option<i32> {
+    // cur_line = line+1 (prev_graf = 0), best_line = n_lines+1
+    if line + 1 == n_lines {
+        return None;
+    }
+    let mut pen = inter_line_penalty as i64;
+    if line == 0 {
+        pen += club_penalty as i64;
+    }
+    if line + 2 == n_lines {
+        pen += widow_penalty as i64;
+    }
+    if disc_break {
+        pen += broken_penalty as i64;
+    }
+    if pen != 0 {
+        Some(pen as i32)
+    } else {
+        None
+    }
+}
+
+/// §889 with the `\parshape` reading of a width/indent sequence: line `line` (0-based) uses entry
+/// `line`, lines past the end use the last entry; an empty indent sequence means no indent.
+pub fn line_geometry(line: usize, widths: &[i32], indents: &[i32]) -> (i32, i32) {
+    let w = widths[line.min(widths.len() - 1)];
+    let ind = if indents.is_empty() { 0 } else { indents[line.min(indents.len() - 1)] };
+    (w, ind)
+}
+
+// ------------------------------------------------------------------------------------------
+// second formulation: conservation by consumption
+
+#[derive(Clone, Debug, Default)]
+pub struct ConservationReport {
+    /// problems found, as (stable signature, human detail)
+    pub problems: Vec<(&'static str, String)>,
+    /// list nodes that legitimately do not appear in any line: break glue, pruned discardables,
+    /// replaced nodes of taken discretionaries
+    pub vanished_break_glue: usize,
+    pub vanished_discardables: usize,
+    pub vanished_replaced: usize,
+    pub discretionary_breaks: usize,
+    pub lines_starting_with_post_break: usize,
+}
+
+/// Reads the produced lines in order and consumes `list` with a cursor. Every list node must be
+/// met exactly once and in order; the only nodes that may be passed over are (a) the glue at which
+/// a line was broken, (b) the run of discardable nodes directly after a break (up to, not
+/// including, the next breakpoint) and (c) the nodes replaced by a taken discretionary, in whose
+/// place the pre-break list (end of the line) and the post-break list (start of the next line)
+/// must appear. A kern at a break must reappear with width 0 (§881), a penalty unchanged, a taken
+/// discretionary as an empty discretionary followed by its pre-break list. Lines are framed by
+/// `\leftskip` (if non-zero) and `\rightskip`. No line after the first may begin with a
+/// discardable node.
+pub fn check_conservation(
+    list: &[MNode],
+    breaks: &[usize],
+    lines: &[Vec<MNode>],
+    left_skip: GlueSpec,
+    right_skip: GlueSpec,
+) -> ConservationReport {
+    let mut r = ConservationReport::default();
+    if lines.len() != breaks.len() {
+        r.problems.push(("line-count", format!("{} lines for {} breakpoints", lines.len(), breaks.len())));
+        return r;
+    }
+    let len = list.len();
+    let mut cursor = 0usize;
+    let mut pending_post: Vec<MNode> = vec![];
+    // true when the previous line ended at a break after which §879 runs
+    let mut after_prunable_break = false;
+    for (k, line) in lines.iter().enumerate() {
+        let b = breaks[k];
+        if b < cursor || b > len {
+            r.problems.push(("break-inside-consumed", format!("line {k}: breakpoint {b} lies before cursor {cursor}")));
+            return r;
+        }
+        let mut body: &[MNode] = line;
+        // frame
+        if !left_skip.is_zero_glue() {
+            match body.first() {
+                Some(n) if *n == MNode::glue(left_skip) => body = &body[1..],
+                _ => {
+                    r.problems.push(("left-skip", format!("line {k} does not start with \\leftskip")));
+                    return r;
+                }
+            }
+        }
+        match body.last() {
+            Some(n) if *n == MNode::glue(right_skip) => body = &body[..body.len() - 1],
+            _ => {
+                r.problems.push(("right-skip", format!("line {k} does not end with \\rightskip")));
+                return r;
+            }
+        }
+        // (c) second half: post-break list of the discretionary that ended the previous line
+        let had_post = !pending_post.is_empty();
+        if had_post {
+            r.lines_starting_with_post_break += 1;
+            let n = pending_post.len();
+            if body.len() < n || body[..n] != pending_post[..] {
+                r.problems.push(("post-break", format!("line {k} does not start with the post-break list {}", render_list(&pending_post))));
+                return r;
+            }
+            body = &body[n..];
+            pending_post.clear();
+        }
+        // the tail the break node leaves at the end of the line (§881-§882)
+        let tail: Vec<MNode> = if b == len {
+            vec![]
+        } else {
+            match &list[b] {
+                MNode::Glue { .. } => vec![],
+                MNode::Kern { kind, .. } => vec![MNode::Kern { width: 0, kind: *kind }],
+                pen @ MNode::Penalty(_) => vec![pen.clone()],
+                MNode::Disc { pre, .. } => {
+                    let mut t = vec![MNode::empty_disc()];
+                    t.extend(pre.iter().cloned());
+                    t
+                }
+                other => {
+                    r.problems.push(("illegal-break-node", format!("line {k}: break at {}", other.render())));
+                    return r;
+                }
+            }
+        };
+        if body.len() < tail.len() || body[body.len() - tail.len()..] != tail[..] {
+            r.problems.push((
+                "break-node-tail",
+                format!("line {k}: must end with {} before \\rightskip, ends with {}", render_list(&tail), render_list(&body[body.len().saturating_sub(tail.len().max(1))..])),
+            ));
+            return r;
+        }
+        let own = &body[..body.len() - tail.len()];
+        // own must be list[cursor..b] minus a vanished prefix
+        let range = &list[cursor..b];
+        if own.len() > range.len() {
+            r.problems.push((
+                "extra-material",
+                format!("line {k}: {} nodes between its breaks but the line carries {}", range.len(), own.len()),
+            ));
+            return r;
+        }
+        let vanished = range.len() - own.len();
+        if vanished > 0 {
+            // (b) only directly after a prunable break, only discardable nodes
+            let ok = after_prunable_break && range[..vanished].iter().all(|n| n.pruned_after_break());
+            if !ok {
+                r.problems.push((
+                    "node-lost",
+                    format!("line {k}: {vanished} node(s) of list[{cursor}..{b}] are missing and are not a discardable run after a break"),
+                ));
+                return r;
+            }
+            r.vanished_discardables += vanished;
+        }
+        if own != &range[vanished..] {
+            let at = own.iter().zip(&range[vanished..]).position(|(a, b)| a != b).unwrap_or(0);
+            r.problems.push((
+                "node-changed-or-reordered",
+                format!(
+                    "line {k}: position {at}: line has {}, list[{}] is {}",
+                    own[at].render(),
+                    cursor + vanished + at,
+                    range[vanished + at].render()
+                ),
+            ));
+            return r;
+        }
+        // no line after the first begins with discardable material (unless the post-break list
+        // of a discretionary begins it)
+        if k > 0 && !had_post && after_prunable_break {
+            if let Some(first) = own.first() {
+                if first.pruned_after_break() {
+                    r.problems.push(("line-starts-with-discardable", format!("line {k} starts with {}", first.render())));
+                }
+            }
+        }
+        // step over the break node
+        after_prunable_break = false;
+        if b < len {
+            match &list[b] {
+                MNode::Glue { .. } => {
+                    r.vanished_break_glue += 1;
+                    cursor = b + 1;
+                    after_prunable_break = true;
+                }
+                MNode::Disc { post, replace, .. } => {
+                    r.discretionary_breaks += 1;
+                    pending_post = post.clone();
+                    r.vanished_replaced += *replace as usize;
+                    cursor = b + 1 + *replace as usize;
+                    after_prunable_break = post.is_empty();
+                }
+                _ => {
+                    cursor = b + 1;
+                    after_prunable_break = true;
+                }
+            }
+        } else {
+            cursor = len;
+        }
+        if cursor > len {
+            r.problems.push(("replace-count", format!("line {k}: discretionary replaces past the end of the list")));
+            return r;
+        }
+    }
+    if cursor != len {
+        r.problems.push(("list-not-exhausted", format!("list nodes {cursor}..{len} appear in no line")));
+    }
+    if !pending_post.is_empty() {
+        r.problems.push(("post-break-dropped", "post-break material after the last line".into()));
+    }
+    r
+}
+
+#[cfg(test)]
+mod tests {
+    use super::*;
+
+    #[test]
+    fn xn_over_d_matches_wide_arithmetic() {
+        let mut x: u64 = 12345;
+        for _ in 0..200000 {
+            x = x.wrapping_mul(6364136223846793005).wrapping_add(1442695040888963407);
+            let v = ((x >> 33) as i32) % (1 << 30);
+            let v = if x & 1 == 1 { -v } else { v };
+            let n = ((x >> 20) % 65537) as i32;
+            let d = ((x >> 5) % 65536) as i32 + 1;
+            let wide = (v as i64).abs() * n as i64 / d as i64;
+            let got = xn_over_d(v, n, d);
+            if wide >= 1 << 30 {
+                assert_eq!(got, None);
+            } else {
+                assert_eq!(got, Some(if v < 0 { -(wide as i32) } else { wide as i32 }), "{v} {n} {d}");
+            }
+        }
+    }
+
+    #[test]
+    fn print_and_parse_scaled() {
+        assert_eq!(print_scaled(218453), "3.33333");
+        assert_eq!(print_scaled(UNITY), "1.0");
+        assert_eq!(print_scaled(-UNITY / 2), "-0.5");
+        for s in [0, 1, 2, 65535, 65536, 65537, 218453, 109226, 72818, 1 << 29, -12345678] {
+            assert_eq!(parse_printed_scaled(&print_scaled(s)), Some(s), "{s}");
+        }
+    }
+
+    #[test]
+    fn space_factor_texbook() {
+        // TeXbook p.76: after "A." the space factor is 1000, not 3000 (999 -> 1000)
+        let codes = plain_sf_codes();
+        let mut sf = 1000;
+        for c in "A.".bytes() {
+            sf = adjust_space_factor(sf, codes[c as usize]);
+        }
+        assert_eq!(sf, 1000);
+        let mut sf = 1000;
+        for c in "a.)".bytes() {
+            sf = adjust_space_factor(sf, codes[c as usize]);
+        }
+        assert_eq!(sf, 3000);
+    }
+
+    #[test]
+    fn spaceskip_scaling_1044() {
+        // cmr10: 3.33333pt plus 1.66666pt minus 1.11111pt, extra 1.11111pt
+        let font = FontSpace { space: 218453, stretch: 109226, shrink: 72818, extra: 72818 };
+        let ss = GlueSpec { width: 10 * UNITY, stretch: 4 * UNITY, stretch_order: 0, shrink: 2 * UNITY, shrink_order: 0 };
+        let g = interword_glue(1250, &font, &ss, &GlueSpec::ZERO, SpaceRule::Tex).unwrap();
+        assert_eq!(g.render(), "10.0pt plus 5.0pt minus 1.59999pt");
+        let g = interword_glue(3000, &font, &ss, &GlueSpec::ZERO, SpaceRule::Tex).unwrap();
+        assert_eq!(g.render(), "11.11111pt plus 12.0pt minus 0.66666pt");
+        let g = interword_glue(3000, &font, &ss, &GlueSpec::ZERO, SpaceRule::SpaceSkipUnscaled).unwrap();
+        assert_eq!(g, ss);
+        let g = interword_glue(3000, &font, &GlueSpec::ZERO, &GlueSpec::ZERO, SpaceRule::Tex).unwrap();
+        assert_eq!(g.render(), "4.44444pt plus 4.99997pt minus 0.37036pt");
+    }
+
+    fn ch(c: char) -> MNode {
+        MNode::Char { c: c as u32, font: 0 }
+    }
+    fn gl(w: i32) -> MNode {
+        MNode::glue(GlueSpec { width: w * UNITY, ..GlueSpec::ZERO })
+    }
+
+    #[test]
+    fn prune_879() {
+        // A glue pen(0) glue B pen(10000) parfill ; break at 1 (glue) and at the end
+        let list = vec![ch('A'), gl(5), MNode::Penalty(0), gl(4), ch('B'), MNode::Penalty(10000), gl(0)];
+        let tex = expected_lines(&list, &[1, 7], GlueSpec::ZERO, GlueSpec::ZERO, Prune::Tex).unwrap();
+        assert_eq!(render_list(&tex[1].items), "B pen(10000) glue(0.0pt) glue(0.0pt)");
+        assert_eq!(tex[0].pruned, 2);
+        let dev = expected_lines(&list, &[1, 7], GlueSpec::ZERO, GlueSpec::ZERO, Prune::None).unwrap();
+        assert_eq!(render_list(&dev[1].items), "pen(0) glue(4.0pt) B pen(10000) glue(0.0pt) glue(0.0pt)");
+        let lines: Vec<Vec<MNode>> = tex.iter().map(|l| l.items.clone()).collect();
+        assert!(check_conservation(&list, &[1, 7], &lines, GlueSpec::ZERO, GlueSpec::ZERO).problems.is_empty());
+        let lines: Vec<Vec<MNode>> = dev.iter().map(|l| l.items.clone()).collect();
+        let rep = check_conservation(&list, &[1, 7], &lines, GlueSpec::ZERO, GlueSpec::ZERO);
+        assert_eq!(rep.problems.len(), 1);
+        assert_eq!(rep.problems[0].0, "line-starts-with-discardable");
+        // pruning stops at the next breakpoint: break at glue 1 then at penalty 2
+        let tex = expected_lines(&list, &[1, 2, 7], GlueSpec::ZERO, GlueSpec::ZERO, Prune::Tex).unwrap();
+        assert_eq!(render_list(&tex[1].items), "pen(0) glue(0.0pt)");
+        assert_eq!(render_list(&tex[2].items), "B pen(10000) glue(0.0pt) glue(0.0pt)");
+        let lines: Vec<Vec<MNode>> = tex.iter().map(|l| l.items.clone()).collect();
+        assert!(check_conservation(&list, &[1, 2, 7], &lines, GlueSpec::ZERO, GlueSpec::ZERO).problems.is_empty());
+    }
+
+    #[test]
+    fn disc_882() {
+        // a disc{-|x|1} b c glue d ; break at the disc
+        let d = MNode::Disc { pre: vec![ch('-')], post: vec![ch('x')], replace: 1 };
+        let list = vec![ch('a'), d, ch('b'), ch('c'), MNode::Penalty(10000), gl(0)];
+        let l = expected_lines(&list, &[1, 6], gl(1).as_spec(), GlueSpec::ZERO, Prune::Tex).unwrap();
+        assert_eq!(render_list(&l[0].items), "glue(1.0pt) a disc{||0} - glue(0.0pt)");
+        assert_eq!(render_list(&l[1].items), "glue(1.0pt) x c pen(10000) glue(0.0pt) glue(0.0pt)");
+        assert!(l[0].disc_break);
+        let lines: Vec<Vec<MNode>> = l.iter().map(|l| l.items.clone()).collect();
+        let rep = check_conservation(&list, &[1, 6], &lines, gl(1).as_spec(), GlueSpec::ZERO);
+        assert!(rep.problems.is_empty(), "{:?}", rep.problems);
+        assert_eq!(rep.vanished_replaced, 1);
+        // duplicate a node: must be noticed
+        let mut bad = lines.clone();
+        bad[1].insert(2, ch('c'));
+        assert!(!check_conservation(&list, &[1, 6], &bad, gl(1).as_spec(), GlueSpec::ZERO).problems.is_empty());
+    }
+
+    impl MNode {
+        fn as_spec(&self) -> GlueSpec {
+            match self {
+                MNode::Glue { spec, .. } => *spec,
+                _ => GlueSpec::ZERO,
+            }
+        }
+    }
+
+    #[test]
+    fn penalties_890() {
+        assert_eq!(interline_penalty(0, 1, false, 5, 150, 150, 100), None);
+        assert_eq!(interline_penalty(0, 2, false, 5, 150, 150, 100), Some(305));
+        assert_eq!(interline_penalty(0, 3, true, 0, 150, 150, 100), Some(250));
+        assert_eq!(interline_penalty(1, 3, false, 0, 150, 150, 100), Some(150));
+        assert_eq!(interline_penalty(1, 4, false, 0, 150, 150, 100), None);
+        assert_eq!(line_geometry(3, &[5, 4, 3], &[]), (3, 0));
+        assert_eq!(line_geometry(1, &[5, 4, 3], &[9]), (4, 9));
+    }
+}
